@@ -24,6 +24,11 @@ Definition bit_count8 (b : N) : nat :=
   length (filter (fun i => N.testbit b i) [0; 1; 2; 3; 4; 5; 6; 7]).
 Definition odd_parity (b : N) : bool := Nat.odd (bit_count8 b).
 
+(* the number of 1 bits of a non-negative integer *)
+Fixpoint pos_ones (p : positive) : nat :=
+  match p with xH => 1 | xO q => pos_ones q | xI q => S (pos_ones q) end.
+Definition count_ones (n : N) : nat := match n with N0 => O | Npos p => pos_ones p end.
+
 (* the 7 key bits of group g (0..7) of a 7-byte key, most significant first: bits 7g .. 7g+6 of the 56 *)
 Definition key_group (k7 : list N) (g : nat) : list bool := firstn 7 (skipn (7 * g) (bytes_to_bits k7)).
 (* the 7 high bits of a byte *)
